@@ -28,7 +28,7 @@ TECHNIQUE = 'deterministic simulation of trash-restore against generated destina
 LEVEL_TEXT = 'seeded exploration of trashed kind x destination kind x --overwrite x selection; judged on real file-system semantics'
 LEVEL_NOTE = 'trusted: snapshot function, model/bag.py'
 
-DEST = ['absent', 'absent', 'file', 'emptyfile', 'emptydir', 'dir', 'link_file', 'link_dir', 'dangling', 'selfloop']
+DEST = ['absent', 'absent', 'file', 'emptyfile', 'emptydir', 'dir', 'link_file', 'link_dir', 'dangling', 'dangling', 'selfloop']
 
 
 def gen(rng):
@@ -107,7 +107,8 @@ def gen(rng):
         elif dk == 'link_dir':
             occ_steps.append(['l', loc, home + '/tg/linked_dir'])
         elif dk == 'dangling':
-            occ_steps.append(['l', loc, rng.choice(['nothing', '/no/where'])])
+            # (a target that is simply not there: ENOENT - or one whose path runs through a regular file: following it is ENOTDIR)
+            occ_steps.append(['l', loc, rng.choice(['nothing', '/no/where', home + '/tg/linked_file/bin/tool', home + '/tg/linked_file/x'])])
         elif dk == 'selfloop':
             occ_steps.append(['l', loc, nm])
     faults = []
